@@ -1879,6 +1879,25 @@ where
                             if ann.node == *remote {
                                 continue;
                             }
+                            // Only send refs announcements of repositories we have if the peer is
+                            // allowed to know about the repository, same as when relaying them.
+                            // Nb. Announcements of repositories we don't have are still replayed,
+                            // since we can't determine if they're private or public.
+                            if let AnnouncementMessage::Refs(RefsAnnouncement { rid, .. }) =
+                                &ann.message
+                            {
+                                let visible = self
+                                    .storage
+                                    .get(*rid)
+                                    .ok()
+                                    .flatten()
+                                    .map(|doc| doc.is_visible_to(&(*remote).into()))
+                                    .unwrap_or(true);
+
+                                if !visible {
+                                    continue;
+                                }
+                            }
                             // Only send messages if we're a relay, or it's our own messages.
                             if relay || ann.node == local {
                                 self.outbox.write(peer, ann.into());
